@@ -368,12 +368,16 @@ def c12(tier, seed):
     steps, ne, npl, maxlen, parts = (12000, 6, 3, 4, 10) if tier == "quick" else (100000, 10, 6, 6, 32)
     shards = hist_shards(seed, "registry", steps, ne, npl)
     exe = hist_exe("plain")
+    # count thresholds: several hundred handles (names of growing length) in one registry, visited in random order, a tenth re-initialised
+    for fl in ("exc", "plain"):
+        shards.append(Shard(hist_exe(fl), ["--mode", "many", "--steps", "300" if tier == "quick" else "3000", "--seed", str(seed), "--shard", "950"], fl + "/many-handles", env=NOLEAK, timeout=7200))
     for i in range(parts):
         shards.append(Shard(exe, ["--mode", "exhaustive", "--maxlen", str(maxlen), "--parts", str(parts), "--shard", str(i), "--seed", str(seed)], "plain/exhaustive/%d" % i, env=NOLEAK, timeout=7200))
     agg.add_shards(run_shards(shards))
     cov = hist_cov(agg, "Bounded-exhaustive part: ALL sequences of length <= %d over the alphabet {init(A,s1), init(B,s1), init(B,s2), init(A,s2), select(A), select(B), set(p,v1), set(p,v2), "
                         "get(p), name, dim, list} (s1 = euler_1d, s2 = heateq_2d_steady_const) that start with an init, each executed from the empty registry in a forked child and "
                         "compared step by step; sequences selecting a handle that does not exist are C16's and are skipped." % maxlen)
+    cov["handles_in_one_registry(many-handles shards)"] = agg.count("many_handles_registered")
     cov["exhaustive"] = True
     cov["exhaustive_scope"] = "the bounded part only (length <= %d); the random part is sampling" % maxlen
     cov["exhaustive_sequences_enumerated"] = agg.count("exhaustive_sequences_enumerated")
@@ -535,6 +539,7 @@ def c19(tier, seed):
         shards.append(Shard(hist_a, ["--mode", "random", "--focus", focus, "--steps", S(steps), "--seed", S(seed), "--shard", S(700 + i)], "exc-asan/hist-%s/%d" % (focus, i), env=ASAN_ENV, timeout=7200))
     shards.append(Shard(hist_pa, ["--mode", "random", "--focus", "store", "--steps", S(steps), "--seed", S(seed), "--shard", "760"], "asan/hist-store", env=ASAN_ENV, timeout=7200))
     shards.append(Shard(hist_a, ["--mode", "sweep", "--seed", S(seed), "--shard", "770"], "exc-asan/sweep", env=ASAN_ENV, timeout=3600))
+    shards.append(Shard(hist_a, ["--mode", "many", "--steps", "120" if not thorough else "600", "--seed", S(seed), "--shard", "771"], "exc-asan/many-handles", env=ASAN_ENV, timeout=7200))
     shards.append(Shard(hist_pa, ["--mode", "exhaustive", "--maxlen", "3", "--parts", "1", "--shard", "0", "--seed", S(seed)], "asan/exhaustive3", env=ASAN_ENV, timeout=3600))
     cabi_a = build.build_bin("exc-asan", "mon_cabi", CABI_SRCS, whole_archive=True)
     shards.append(Shard(cabi_a, ["--seed", S(seed), "--shard", "780", "--steps", S(steps)], "exc-asan/cabi", env=ASAN_ENV, timeout=7200))
